@@ -330,8 +330,10 @@ sexp sexp_sort_x (sexp ctx, sexp self, sexp_sint_t n, sexp seq,
       res = sexp_merge_sort_less(ctx, sexp_vector_data(vec),
                                  sexp_vector_data(scratch),
                                  0, len-1, less, key);
+      /* the sorted elements end up in vec (scratch is only filled */
+      /* completely when a merge step ran) */
       if (!sexp_exceptionp(res))
-        res = scratch;
+        res = vec;
     }
   }
 
